@@ -137,7 +137,11 @@ func parseHistory(op string) (*history, map[string]string) {
 				d, _ := strconv.ParseUint(p[2], 10, 64)
 				var msgs [][]byte
 				for _, m := range strings.Split(p[3], "/") {
-					msgs = append(msgs, unhx(m))
+					// messages with spare capacity (as midi.SysEx() or append-built slices have): aliasing bugs need it
+					raw := unhx(m)
+					mm := make([]byte, len(raw), len(raw)+8)
+					copy(mm, raw)
+					msgs = append(msgs, mm)
 				}
 				h.ops = append(h.ops, histOp{'a', i, uint32(d), msgs})
 			case "c":
@@ -209,7 +213,7 @@ func genDelta(r *Rng, allowHuge bool) uint32 {
 
 func genLen(r *Rng, tier string) int {
 	if r.Chance(1, 100) { // beyond the 4096-byte step of ReadNBytes (bounded-growth path)
-		return r.Pick(4095, 4096, 4097, 4098, 5000, 8192, 8193)
+		return r.Pick(4095, 4096, 4097, 4098, 5000, 8192, 8193, 16383, 16384, 16385, 20000)
 	}
 	switch r.Intn(12) {
 	case 0:
